@@ -391,3 +391,96 @@ def rule_cls1(ctx, family):
     if n == 0:
         r.ok("CLS1", f"{family}:none", loc(root, root.node), "",
              f"{len(classes)} classes: no mutable class-level default")
+
+
+# ---------------------------------------------------------------------------
+# DER1: an attribute derived from a constructor argument follows the state
+# that argument initialises
+
+
+def _names(e):
+    return {x.id for x in ast.walk(e) if isinstance(x, ast.Name)}
+
+
+def _init_dependencies(init):
+    """attr -> set of constructor parameters its value (or the condition it
+    is assigned under) mentions"""
+    params = {a.arg for a in init.node.args.args[1:]} | {
+        a.arg for a in init.node.args.kwonlyargs}
+    out = {}
+
+    def walk(body, conds):
+        for st in body:
+            if isinstance(st, ast.Assign):
+                for t in st.targets:
+                    a = _self_attr(t) if isinstance(t, ast.Attribute) else None
+                    if a is not None:
+                        out.setdefault(a, set()).update(
+                            (_names(st.value) | conds) & params)
+            elif isinstance(st, ast.If):
+                c = conds | (_names(st.test) & params)
+                walk(st.body, c)
+                walk(st.orelse, c)
+            elif isinstance(st, (ast.With, ast.Try, ast.For, ast.While)):
+                walk(getattr(st, "body", []), conds)
+                walk(getattr(st, "orelse", []), conds)
+                for h in getattr(st, "handlers", []):
+                    walk(h.body, conds)
+    walk(init.node.body, set())
+    return out
+
+
+def rule_der1(ctx, root_rel, root_name):
+    r = ctx.r
+    r.rule("DER1", "an attribute that __init__ derives from a constructor "
+                   "argument (a flag, a cached form) while that argument "
+                   "also initialises mutable state with setters elsewhere "
+                   "must be re-derived by those setters; otherwise it "
+                   "describes the state the object was built with, not the "
+                   "current one")
+    root = ctx.p.get_class(root_rel, root_name)
+    classes = [root] + ctx.p.subclasses(root)
+    n = 0
+    for c in classes:
+        init = c.methods.get("__init__")
+        if init is None:
+            continue
+        deps = _init_dependencies(init)
+        family = [k for k in classes if k in ctx.p.mro(c) or c in ctx.p.mro(k)]
+        # writers outside constructors
+        writers = {}
+        readers = {}
+        for k in family:
+            for f in k.methods.values():
+                for a, node, whole in _stores(f.node):
+                    if f.name != "__init__":
+                        writers.setdefault(a, []).append(f)
+                for a in _loads(f.node):
+                    if f.name != "__init__":
+                        readers.setdefault(a, []).append(f)
+        for a, params_a in sorted(deps.items()):
+            if a in writers or not params_a or a not in readers:
+                continue            # has its own setters / unused
+            # state that shares a constructor parameter and has setters
+            shared = [p for p, ps in deps.items()
+                      if p != a and ps & params_a and p in writers]
+            if not shared:
+                continue
+            n += 1
+            inst = f"{c.name}.{a}"
+            p = shared[0]
+            ws = sorted({w.qualname for w in writers[p]})
+            r.analysed(init)
+            r.violation(
+                "DER1", f"{c.fq}|{a}", loc(init, init.node), inst,
+                f"`self.{a}` is computed once in {c.name}.__init__ from "
+                f"{sorted(params_a)}, the argument that also initialises "
+                f"`self.{p}`; {', '.join(ws)} change `self.{p}` without "
+                f"updating `self.{a}`, and "
+                f"{sorted({x.qualname for x in readers[a]})[0]} reads it: "
+                "after such a call the object behaves as it did when it "
+                "was constructed", instance=inst)
+    if n == 0:
+        r.ok("DER1", f"{root_name}:none", loc(root, root.node), "",
+             f"{len(classes)} classes: no constructor-derived attribute "
+             "shadows state that has setters")
